@@ -122,3 +122,10 @@ Lemma plain_memo_nonvacuous :
   shift_okb g_plain ([97;32] ++ [98])%N no_orc ([97;32] ++ [32;9] ++ [98])%N no_orc 2 2 = true /\
   accepts (run g_plain c_default no_orc true 50 ([97;32] ++ [32;9] ++ [98])%N) = true.
 Proof. vm_compute. repeat split. Qed.
+
+From TxV Require Import Proofs.PegGap.
+Lemma plain_tiled_nonvacuous :
+  g_comments g_plain = None /\ top_eof g_plain = true /\
+  accepts (run g_plain c_default no_orc false 50 [97;32;32;98;10;98]%N) = true /\
+  all_ws g_plain c_default = c_ws c_default.
+Proof. vm_compute. repeat split. Qed.
